@@ -12,7 +12,7 @@ from lib import c11_util as U
 from lib import common as C
 
 PROP = "C11"
-PROPS_FILES = ["Props/C11_loglik.v", "Props/C11.v"]
+PROPS_FILES = ["Props/C11_loglik.v", "Props/C11.v", "Props/C11_live.v"]
 ASSUMPTIONS = [
   "exact arithmetic (rationals in Model.HyperOpt, an abstract real field in Gen.GenGP); floating-point rounding is met only in the harness: "
   "1e-11 relative / 1e-12 absolute in the in-Coq comparison, 1e-10 * cond(K) in the likelihood oracle",
@@ -297,7 +297,39 @@ def loglik_numeric(rng):
   mean = rng.choice(["zero", "constant", "linear"]) if n > d + 2 else rng.choice(["zero", "constant"])
   scale = rng.choice([1.0, 0.5, 0.01, 7.0])
   inp = dict(kind="loglik", kernel=kernel, x=x, y=y, hp=hp, noise=noise, tik=tik, mean=mean, scale=scale)
+  if rng.random() < 0.4:
+    inp["history"] = gen_loglik_history(rng, inp)
   return inp
+
+
+def gen_loglik_history(rng, inp):
+  """The life of ONE likelihood object after its first vector (what a hyperparameter search does with it, and what happens to the data container it
+  holds): further vectors, a vector whose kernel matrix cannot be factored (LinAlgError - caught, as the optimisers' wrappers do), the SAME vector sent
+  again (optimisers re-send the point they have just evaluated), observations appended to the live HistoricalData before a vector is (re-)sent.
+  A noise-free variant (no nugget slot) makes the unfactorable vectors reachable: length scales far beyond the spread of the points."""
+  d, auto = len(inp["x"][0]), inp["tik"] is not None
+  if not auto and rng.random() < 0.5:
+    inp["noise"] = [0.0] * len(inp["x"])           # noise-free data: K is singular to working precision for very long length scales
+  def good():
+    a = 10 ** rng.uniform(-1, 1)
+    return [a] + [10 ** rng.uniform(-0.5, 0.7) for _ in range(d)] + ([a * 10 ** rng.uniform(-3, -1)] if auto else [])
+  def flat():
+    return [10 ** rng.uniform(-1, 1)] + [10 ** rng.uniform(2.5, 4) for _ in range(d)] + ([1e-300] if auto else [])
+  steps = []
+  for _ in range(rng.randint(1, 4)):
+    c = rng.random()
+    if c < 0.3:
+      steps.append(["set", good()])
+    elif c < 0.5:
+      steps.append(["set", flat()])
+    elif c < 0.75:
+      steps.append(["resend"])
+    else:
+      k = rng.randint(1, 3)
+      steps.append(["append", [[rng.uniform(-2, 2) for _ in range(d)] for _ in range(k)], [rng.gauss(0, 1) for _ in range(k)],
+                    [0.0 if inp["noise"][0] == 0.0 else inp["hp"][0] * 10 ** rng.uniform(-3, -1) for _ in range(k)]])
+      steps.append(["resend"] if rng.random() < 0.7 else ["set", good()])
+  return steps
 
 
 def run_loglik(inp):
@@ -322,7 +354,210 @@ def run_loglik(inp):
   return out
 
 
+LIVE_HEADER = "From Coq Require Import List QArith Bool Arith.\nFrom LV Require Import Model.LogLikLive.\nOpen Scope Q_scope."
+
+
+def gen_liklive(rng):
+  """a likelihood-history input (same shape as loglik_numeric + gen_loglik_history, replayable by oracle_loglik) on dyadic data, for the op-sequence
+  correspondence with Model.LogLikLive: distinct points, noise-free or noise 1/8, with / without the nugget slot; vectors that fit, vectors whose kernel
+  matrix is EXACTLY alpha * ones (length scales 2^40: every profile rounds to 1) and cannot be factored when there is no noise and no nugget, the last
+  vector sent again, observations appended before a vector is (re-)sent"""
+  kernel = rng.choice(sorted(U.KERNELS))
+  d, n = rng.randint(1, 2), rng.randint(3, 5)
+  def newpt(i):
+    return [i + dy(rng, 0, 0.75, 4) for _ in range(d)]
+  x = [newpt(i) for i in range(n)]
+  y = [dy(rng, -2, 2, 4) for _ in range(n)]
+  quiet = rng.random() < 0.6
+  auto = rng.random() < 0.3
+  lvl = 0.0 if quiet else 0.125
+  def good():
+    return [dy(rng, 0.25, 3, 8) for _ in range(d + 1)] + ([dy(rng, 0.125, 1, 8)] if auto else [])
+  def flat():
+    return [dy(rng, 0.25, 3, 8)] + [2.0 ** 40] * d + ([dy(rng, 0.125, 1, 8)] if auto else [])
+  first = good()
+  steps, m = [], n
+  for _ in range(rng.randint(2, 5)):
+    c = rng.random()
+    if c < 0.3:
+      steps.append(["set", good()])
+    elif c < 0.55:
+      steps.append(["set", flat()])
+    elif c < 0.8:
+      steps.append(["resend"])
+    else:
+      k = rng.randint(1, 2)
+      steps.append(["append", [newpt(m + i) for i in range(k)], [dy(rng, -2, 2, 4) for _ in range(k)], [lvl] * k])
+      m += k
+      steps.append(["resend"] if rng.random() < 0.7 else ["set", good()])
+  return dict(kind="loglik", kernel=kernel, x=x, y=y, hp=first[:d + 1], noise=[lvl] * n, tik=first[-1] if auto else None,
+              mean=rng.choice(["zero", "constant"]), scale=1.0, history=steps, live=True)
+
+
+def run_liklive(inp):
+  """ONE live likelihood object (linear parameterisation) through the history of `inp`; after every set: read back, read the value.  Returns the
+  constructor facts, the operations as Model.LogLikLive sees them (chol_ok = whether a FRESHLY built object factors the kernel matrix of the vector sent
+  on the observations held then - an independent run of the external code) and what the live object showed.  A value is reported as the list of
+  (kernel hyperparameters, nugget, number of observations), among the vectors sent and the container sizes seen so far, whose fresh fit reproduces it."""
+  from libsigopt.compute import covariance as cv
+  from libsigopt.compute.covariance_base import HyperparameterInvalidError
+  from libsigopt.compute.log_likelihood import GaussianProcessLogMarginalLikelihood
+  from libsigopt.compute.misc.data_containers import HistoricalData
+  from libsigopt.compute.python_utils import validate_polynomial_indices
+  d, auto = len(inp["x"][0]), inp["tik"] is not None
+  idx = validate_polynomial_indices(None, inp["mean"], d) if inp["mean"] != "zero" else None
+  def build(x, y, noise):
+    hd = HistoricalData(d)
+    hd.append_historical_data(numpy.array(x, dtype=float), numpy.array(y, dtype=float), numpy.array(noise, dtype=float))
+    return GaussianProcessLogMarginalLikelihood(getattr(cv, inp["kernel"])([1.0] * (d + 1)), hd, mean_poly_indices=idx, use_auto_noise=auto, log_domain=False,
+                                                scaling_factor=inp["scale"])
+  x, y, noise = [list(r) for r in inp["x"]], list(inp["y"]), list(inp["noise"])
+  ll = build(x, y, noise)
+  tik0 = None if ll.gp.tikhonov_param is None else float(ll.gp.tikhonov_param)
+  vectors, sizes = [([1.0] * (d + 1), tik0)], [len(x)]
+  def fresh_value(cov, tik, m):
+    try:
+      f = build(x[:m], y[:m], noise[:m])
+      f.hyperparameters = numpy.array(list(cov) + ([tik] if auto else []), dtype=float)
+      return float(f.compute_log_likelihood())
+    except numpy.linalg.LinAlgError:
+      return None
+  ops, outs = [], []
+  last = list(inp["hp"]) + ([inp["tik"]] if auto else [])
+  for step in [["set", last]] + inp["history"]:
+    if step[0] == "append":
+      ll.historical_data.append_historical_data(numpy.array(step[1], dtype=float), numpy.array(step[2], dtype=float), numpy.array(step[3], dtype=float))
+      x, y, noise = x + [list(r) for r in step[1]], y + list(step[2]), noise + list(step[3])
+      sizes.append(len(x))
+      ops.append(("append", len(step[1])))
+      outs.append(("set", "RNormal"))
+      continue
+    vec = list(step[1]) if step[0] == "set" else last
+    last = vec
+    vectors.append((vec[:d + 1], vec[-1] if auto else None))
+    chol_ok = fresh_value(vec[:d + 1], vec[-1] if auto else None, len(x)) is not None
+    try:
+      ll.hyperparameters = numpy.array(vec, dtype=float)
+      res = "RNormal"
+    except numpy.linalg.LinAlgError:
+      res = "RLinAlg"
+    except HyperparameterInvalidError:
+      res = "RInvalid"
+    except ValueError:
+      res = "RLen"
+    ops += [("set", vec, chol_ok), ("get",), ("value",)]
+    v = float(ll.compute_log_likelihood())
+    rep = []
+    for cov, tik in vectors:
+      for m in sizes:
+        fv = fresh_value(cov, tik, m)
+        if fv is not None and abs(fv - v) <= 1e-9 * max(1.0, abs(v)) and (cov, tik, m) not in rep:
+          rep.append((cov, tik, m))
+    outs += [("set", res), ("get", [float(t) for t in ll.hyperparameters]), ("value", rep)]
+  return dict(dim=d, auto=auto, cov0=[1.0] * (d + 1), tik0=tik0, n=len(inp["x"]), ops=ops, outs=outs)
+
+
+def liklive_term(r):
+  ql = lambda v: C.listlit(v, C.qlit)
+  ops = C.listlit([f"(LSet {ql(o[1])} {C.blit(o[2])})" if o[0] == "set" else f"(LAppend {C.nlit(o[1])})" if o[0] == "append" else "LGet" if o[0] == "get" else "LValue" for o in r["ops"]])
+  snap = lambda t: f"(mksnap {ql(t[0])} {C.optlit(t[1], C.qlit)} {C.nlit(t[2])})"
+  outs = C.listlit([f"(ISet {o[1]})" if o[0] == "set" else f"(IGet {ql(o[1])})" if o[0] == "get" else f"(IValue {C.listlit([snap(t) for t in o[1]])})" for o in r["outs"]])
+  return f"mklcase {C.nlit(r['dim'])} {C.blit(r['auto'])} {ql(r['cov0'])} {C.optlit(r['tik0'], C.qlit)} {C.nlit(r['n'])} {ops} {outs}"
+
+
+def liklive_correspondence(ctx):
+  cases, meta, dist, dis, seen = [], [], {}, [], set()
+  for _ in range(ctx.n(150, 2000)):
+    inp = gen_liklive(ctx.rng)
+    try:
+      r = run_liklive(inp)
+    except C.TieBroken:
+      raise
+    except Exception as e:  # noqa: BLE001
+      dis.append(dict(what=f"C11 live likelihood object: the history raised {type(e).__name__}: {e}", kind="loglik", input=inp, observed=repr(e)))
+      continue
+    cases.append(liklive_term(r))
+    meta.append((inp, r))
+    res = [o[1] for o in r["outs"] if o[0] == "set"]
+    for t in (["liklive:unfactorable-vector-refused"] if "RLinAlg" in res else []) + (["liklive:appended-then-sent"] if any(o[0] == "append" for o in r["ops"]) else []) + \
+             (["liklive:resent"] if any(s[0] == "resend" for s in inp["history"]) else []) + (["liklive:nugget-slot"] if r["auto"] else []):
+      dist[t] = dist.get(t, 0) + 1
+    if len(res) >= 3:
+      seen.add(C.canon_hash(inp))
+  bad = C.run_cases("C11live", LIVE_HEADER, "lcase", "lcheck", cases, shard=50)
+  for i in bad:
+    inp, r = meta[i]
+    dis.append(dict(what=f"C11 live likelihood object, case {i}: outcome of a set / read-back / the model a value belongs to differs from Model.LogLikLive (a set that returns "
+                         "normally fits the vector sent on the observations held then; a vector that cannot be factored is refused every time)", kind="loglik", input=inp,
+                    observed=[list(o) for o in r["outs"]]))
+  return dict(evaluations=len(cases), distinct=len(seen), distribution=dist, disagreements=dis)
+
+
+def oracle_loglik_history(inp):
+  """One live likelihood object per parameterisation.  Whenever `ll.hyperparameters = h` RETURNS NORMALLY the object has fitted the model h names on the
+  data it holds: reading back gives h, the value is -scale*(r'K^-1 r + log det K) for the kernel at h on the observations the container holds NOW (own
+  formula, conditioning-scaled tolerance), and the factorisation that a normal return vouches for exists - a freshly built object given the same vector
+  and the same data does not fail (the setter has nothing but the vector and the data to factor: a normal return for a vector whose kernel matrix cannot
+  be factored means nothing was fitted).  A set that raises LinAlgError claims nothing."""
+  from libsigopt.compute import covariance as cv
+  from libsigopt.compute.covariance_base import HyperparameterInvalidError
+  from libsigopt.compute.log_likelihood import GaussianProcessLogMarginalLikelihood
+  from libsigopt.compute.misc.data_containers import HistoricalData
+  from libsigopt.compute.python_utils import validate_polynomial_indices
+  def fail(what, observed, expected, when=""):
+    return dict(signature=f"C11:loglik:{what}", what=f"likelihood: {what} {when}", input=inp, observed=observed, expected=expected,
+                oracle="numpy.linalg.solve / slogdet closed form, own kernel formula, GLS residual; a freshly built object for the existence of the factorisation")
+  d, auto = len(inp["x"][0]), inp["tik"] is not None
+  idx = validate_polynomial_indices(None, inp["mean"], d) if inp["mean"] != "zero" else None
+  def build(x, y, noise, lg):
+    hd = HistoricalData(d)
+    hd.append_historical_data(numpy.array(x, dtype=float), numpy.array(y, dtype=float), numpy.array(noise, dtype=float))
+    return GaussianProcessLogMarginalLikelihood(getattr(cv, inp["kernel"])([1.0] * (d + 1)), hd, mean_poly_indices=idx, use_auto_noise=auto, log_domain=lg,
+                                                scaling_factor=inp["scale"])
+  first = list(inp["hp"]) + ([inp["tik"]] if auto else [])
+  for lg in (False, True):
+    x, y, noise = [list(r) for r in inp["x"]], list(inp["y"]), list(inp["noise"])
+    ll = build(x, y, noise, lg)
+    last = first
+    for j, step in enumerate([["set", first]] + inp["history"]):
+      if step[0] == "append":
+        ll.historical_data.append_historical_data(numpy.array(step[1], dtype=float), numpy.array(step[2], dtype=float), numpy.array(step[3], dtype=float))
+        x, y, noise = x + [list(r) for r in step[1]], y + list(step[2]), noise + list(step[3])
+        continue
+      vec = list(step[1]) if step[0] == "set" else last
+      last = vec
+      send = numpy.log(numpy.array(vec)) if lg else numpy.array(vec, dtype=float)
+      when = f"(step {j}: {step[0]}, {'log' if lg else 'linear'} parameterisation, {len(x)} observations held)"
+      try:
+        ll.hyperparameters = send
+      except (numpy.linalg.LinAlgError, HyperparameterInvalidError):
+        continue                       # no fit, no value claimed
+      except Exception as e:  # noqa: BLE001
+        return fail(f"setting hyperparameters on a live object raised {type(e).__name__}", repr(e), "a fit or LinAlgError")
+      read = [float(v) for v in ll.hyperparameters]
+      if len(read) != len(vec) or any(abs(a - float(b)) > 1e-12 * max(1.0, abs(float(b))) for a, b in zip(read, send)):
+        return fail("set then get is not the identity on a live object", read, [float(v) for v in send], when)
+      try:
+        fresh = build(x, y, noise, lg)
+        fresh.hyperparameters = send
+      except numpy.linalg.LinAlgError:
+        return fail("a live object accepted a hyperparameter vector (normal return) although the kernel matrix it names on the data held cannot be factored: "
+                    "nothing was fitted, the value it reports belongs to another model", dict(value=float(ll.compute_log_likelihood()), reports=read), "LinAlgError, as for a freshly built object", when)
+      got = float(ll.compute_log_likelihood())
+      try:
+        exp, cond, sgn = U.own_loglik(inp["kernel"], vec[:d + 1], x, y, noise, vec[-1] if auto else None, inp["mean"], inp["scale"])
+      except numpy.linalg.LinAlgError:
+        continue                       # the reference itself cannot be evaluated in double precision: nothing to compare with
+      if sgn <= 0 or not math.isfinite(exp) or not math.isfinite(cond):
+        continue
+      if not abs(got - exp) <= 1e-10 * cond * (1 + abs(exp)):
+        return fail("value on a live object differs from -scale*(r'K^-1 r + log det K) at the hyperparameters it was given, on the observations it holds", got, exp, when)
+  return None
+
+
 def oracle_loglik(inp):
+  if inp.get("history"):
+    return oracle_loglik_history(inp)              # the object's first vector is the first step of its life
   try:
     out = run_loglik(inp)
   except Exception as e:  # noqa: BLE001
@@ -394,6 +629,11 @@ def correspondence(ctx):
     dist["loglik-numeric"] = dist.get("loglik-numeric", 0) + 1
     if r:
       dis.append(dict(what="C11 numeric correspondence: " + r["what"], kind="loglik", input=inp, observed=r["observed"]))
+  lv = liklive_correspondence(ctx)
+  dist.update(lv["distribution"])
+  dis += lv["disagreements"]
+  nontriv += lv["distinct"]
+  nll += lv["evaluations"]
   bad = C.run_cases("C11", HEADER, "case", "check", cases, shard=60)
   for i in bad:
     dis.append(dict(what=f"C11 correspondence case {i} ({meta[i][0]}): implementation output differs from Model.HyperOpt / its specification",
@@ -404,7 +644,10 @@ def correspondence(ctx):
                    "task and nugget slots, several discrete lower limits); length-scale regrouping (None defaults); endpoint requests (1-3 parameters, 3-7 "
                    "distinct observations, 1-4 metrics in optimised / constraint / stored roles with both index lists in any order, constant and "
                    "near-constant metrics, failures, tasks, supplied nuggets incl. exactly 0.0) with ten scripted SLSQP outcomes per fit (raised / failed / out-of-box / corner / NaN value / ties); non-trivial = at least one "
-                   "fit constructed (endpoint), >= 2 parameters (box); distinct by hash of the canonical input; plus numeric likelihood comparisons",
+                   "fit constructed (endpoint), >= 2 parameters (box); distinct by hash of the canonical input; plus numeric likelihood comparisons; plus histories on ONE live "
+                   "likelihood object against Model.LogLikLive (dyadic data, noise-free / noisy, with / without nugget slot; vectors that fit, vectors whose kernel matrix is exactly "
+                   "alpha*ones and cannot be factored, the last vector re-sent, observations appended before a vector is sent; after every set the read-back and the model the value "
+                   "belongs to - identified by re-fitting every vector sent so far on every container size seen so far)",
               samples=[dict(kind=k, input=i, impl_output=o) for k, i, o in meta[:1] + meta[-2:]], distribution=dist, disagreements=dis)
 
 
@@ -620,3 +863,12 @@ LEVEL_NOTE = ("Exact arithmetic; exp/log and SLSQP are oracles; the multistart m
               "harness, stub optimiser and case printer trusted; no axioms beyond the standard library (MathComp part: closed)")
 TECHNIQUE = "Coq proof (induction over the per-metric loop, multistart invariant, list algebra) + py2v-generated likelihood definitions + in-Coq differential correspondence"
 DESIGN_REF = "DESIGN.md section 7, C11"
+
+# --- gap round B (seeded C11_m12): the life of one likelihood object
+LEVEL_TEXT += ("; the searcher's likelihood oracle follows ONE live likelihood object through a history (further vectors, vectors whose kernel matrix cannot be factored - LinAlgError "
+               "caught -, the same vector sent again, observations appended to the live HistoricalData before a vector is re-sent): after every set that returns normally the "
+               "read-back, the value on the observations held NOW, and the existence of the factorisation (a freshly built object does not fail) are stated")
+LEVEL_TEXT += ("; Model/LogLikLive.v follows set_hyperparameters statement by statement on a live object (what is assigned when ValueError / HyperparameterInvalidError / LinAlgError leaves it; "
+               "the container is held by reference): a set that returns normally has fitted the vector sent on all observations held then, a vector whose kernel matrix cannot be "
+               "factored is never accepted however often it is sent, the outcome of a set does not depend on what the object held before (C11_live_*), tied to the running class by an "
+               "op-sequence correspondence")
